@@ -18,6 +18,18 @@ tie to code: (a) byte equality of the model's text (driver op trans.java) with
              and analysed with the real `analyze_compiler_output`; a sample is compiled file by
              file (thorough: also in batches of 10/100/200) and the verdicts compared with the
              batch verdicts.
+structured  : (c) the hand-built IR family `harness/ir_family.py` (context x slot x probe + declaration shapes, built with
+             the real ast / types classes and a real Context; 21 673 members, 13 400 expressible): quick = a slice of 900
+             members that contains every probe (all call shapes: callee kind x fixed parameters x vararg element x 0/1/2
+             vararg values), every slot, every context and the program-level shapes, thorough = 5 000 (C02_FAMILY_THOROUGH=all
+             for the whole family).  Per member: by-value export unchanged by the translation, model text == real text
+             (also without package), javac accepts the real text when the member is a valid target program (members that
+             are well-formed IR but no Java, e.g. a literal as a statement, are text-compared only).  A text difference
+             starts a failing-input search: javac on the differing members and their neighbours in the family.
+coverage    : (d) `harness/cov_trans.py` (sys.monitoring, Python 3.12): calls per visit_* method, lines and both outcomes
+             of every conditional jump of src/translators/java.py, for the family, the random stream (pipeline plugin) and
+             their union; evidence key translator_coverage; the outcomes never taken must be in DEAD (11 outcomes that no
+             well-typed program reaches, each with its reason), anything else is logged as COVERAGE-GAP.
 failing input: a javac error in an emitted Main.java — replay = (seed, switches, stage) + file +
              javac message, signature = shape of the diagnostic ("java:<stage>:<construct>:<message>").
              A verdict that differs between batch sizes is a failing input of the batching clause.
@@ -34,6 +46,8 @@ import common
 from common import HarnessError
 import pipeline
 import trans_java
+import cov_trans
+import c02_family
 
 LEVEL = "proof"
 MAX_DEPTH = 6
@@ -52,7 +66,8 @@ def make_specs(run, n, quick):
         pkg = "q%05d" % i
         specs.append({"lang": "java", "seed": s, "switches": list(sws[i % 16]), "max_depth": depths[(i // 16 + i) % len(depths)],
                       "stages": ["gen", "erase"], "export": False, "translate": ["java"], "cap": 40 if quick else CAP,
-                      "plugins": ["trans_java"], "package": "src." + pkg, "pkg": pkg})
+                      "plugins": ["trans_java", "cov_trans"], "cov_module": "src.translators.java",
+                      "package": "src." + pkg, "pkg": pkg})
     return specs
 
 
@@ -139,6 +154,7 @@ def text_stream(run, st, results):
     reqs, metas = [], []
     for r in results:
         spec = r["spec"]
+        st.setdefault("cov_reports", []).append((r.get("plugins") or {}).get("cov_trans"))
         if "cutoff" in r:
             run.tally("pipeline", "cutoff:" + str(r["cutoff"]))
         if "exception" in r:
@@ -475,7 +491,50 @@ def javac_finish(run, st, job, quick):
 
 # =================================================================== verdict
 def file_replay(f):
+    if "family_index" in f:
+        return {"family_index": f["family_index"], "family_member": f["name"], "stage": "family", "lang": "java",
+                "program_export": f.get("export"), "file": "src/%s/Main.java" % f["pkg"]}
     return dict(replay_key(f["spec"], f["stage"]), file="src/%s/Main.java" % f["pkg"])
+
+
+# never-taken outcomes of conditional jumps of java.py that no well-typed program (and no member of the family) reaches:
+# (function suffix, substring of the tested expression, outcome or None, reason)
+DEAD = [
+    ("get_type_name", "t.is_wildcard()", "true", "a wildcard occurs only as a type argument: printed by type_arg2str, which passes its bound"),
+    ("_get_functional_interfaces", 'res != ""', "false", "_function_interfaces always holds 0..3"),
+    ("visit_block", "isinstance(children[-1], ast.VariableDeclaration)", "true", "assert: a declaration has a void type hint, taken by the branch before"),
+    ("visit_block", "isinstance(children[-1], ast.FunctionReference)", "true", "get_type_hint of a FunctionReference is its signature, a function type: is_lambda is taken first"),
+    ("visit_block", "sig", None, "same: the get_function_reference_type branch is behind is_lambda"),
+    ("construct_constructor", "isinstance(supercls.class_type, tp.Builtin)", "true", "a builtin superclass raises KeyError in get_superclasses_interfaces first"),
+    ("visit_param_decl", "isinstance(node.param_type, tp.ParameterizedType)", "false", "the type of a vararg parameter is Array<T>"),
+    ("visit_lambda", "node.body", "false", "a lambda without body exists only while the generator builds it"),
+    ("visit_lambda", "body_res", "false", "same"),
+    ("visit_array_expr", "isinstance(node.array_type, tp.ParameterizedType)", "false", "an array type is Array<T>"),
+    ("visit_is", "for c in children[1:]", "iterate", "Is.children() is [lexpr]"),
+]
+
+
+def coverage_evidence(run, st, fam_cov, quick):
+    """which visit_* methods / branches of java.py the explored programs executed (family, random stream, union)"""
+    rnd = cov_trans.merge(st.get("cov_reports", []))
+    both = cov_trans.merge([fam_cov, rnd])
+    if both is None:
+        return
+    ev = {"union": cov_trans.summary(both, DEAD)}
+    for name, rep in (("family", fam_cov), ("random_stream", rnd)):
+        if rep:
+            s = cov_trans.summary(rep, DEAD)
+            ev[name] = {k: s[k] for k in ("conditional_branches", "both_outcomes_taken", "outcomes_total", "outcomes_taken",
+                                          "functions_never_called", "never_taken_unexplained")}
+            ev[name]["lines_never_executed"] = len(s["lines_never_executed"])
+    run.cov["translator_coverage"] = ev
+    u = ev["union"]
+    run.log("java.py coverage: %d of %d branch outcomes taken (family %s, random stream %s); %d never taken: %d explained dead, %d unexplained" % (
+        u["outcomes_taken"], u["outcomes_total"], ev.get("family", {}).get("outcomes_taken"), ev.get("random_stream", {}).get("outcomes_taken"),
+        u["outcomes_total"] - u["outcomes_taken"], len(u["never_taken_explained_dead"]), len(u["never_taken_unexplained"])))
+    for n in u["never_taken_unexplained"][:12]:
+        run.log("   COVERAGE-GAP %s  [%s] never %s (other outcome %d times)" % (n["where"], n["test"][:100], n["never"], n["other_outcome_hits"]))
+    return u
 
 
 def verdict(run, st, proofs_ok):
@@ -548,6 +607,9 @@ def check(run):
     n = 60 if quick else int(os.environ.get("C02_PROGRAMS", "400"))
     st = {"diffs": [], "unmodelled": [], "equal": 0, "rejections": [], "batch_diffs": []}
     specs = make_specs(run, n, quick)
+    # ---- structured stream first: the hand-built family (its javac batches run while the pipeline generates)
+    fam_pool = ThreadPoolExecutor(max_workers=3 if quick else 6)
+    fam_recs, fam_cov, fam_futs = c02_family.run_family(run, st, quick, compile_batch, fam_pool)
     t0 = time.time()
     chunk = 320
     files, reqs_all, metas_all = [], [], []
@@ -586,6 +648,13 @@ def check(run):
                 javac_finish(run, st, job, q)
     run.log("javac: %d files judged in batches, %d compiled alone as well (%.0fs)" % (
         len(files), run.cov.get("batch_comparisons", {}).get("alone", {}).get("files", 0), time.time() - t1))
+    c02_family.finish_javac(run, st, fam_futs, diag_block, signature)
+    fam_pool.shutdown()
+    u = coverage_evidence(run, st, fam_cov, quick)
+    if st.get("family_diff_members") or (quick and u and u["never_taken_unexplained"]):
+        # a text difference inside the family, or a branch that the quick slice leaves unexplained: failing-input search
+        # over the neighbours of the differing members
+        c02_family.search_neighbours(run, st, compile_batch, {r["i"] for r in fam_recs if "skip" not in r}, diag_block, signature)
     run.cov["javac_rejections"] = len(st["rejections"])
     run.cov["batch_verdict_changes"] = len(st["batch_diffs"])
     run.cov["correspondence_differs"] = len(st["diffs"])
@@ -595,6 +664,31 @@ def check(run):
 def replay(run, rp):
     """re-run one recorded case: regenerate the program, compare model and real text, compile the file alone"""
     src = rp.get("first", {}).get("replay") if rp.get("kind") == "broken-correspondence" else rp
+    fi = rp.get("family_index", (rp.get("first") or {}).get("family_index"))
+    if fi is not None:
+        run.build_and_audit()
+        pipeline.setup()
+        st = {"diffs": [], "unmodelled": [], "equal": 0, "rejections": [], "batch_diffs": []}
+        recs, _ = c02_family._translate_members([fi], "r", with_cov=False)
+        r = recs[0]
+        if "skip" in r:
+            raise HarnessError("family member %s is not expressible" % fi)
+        a = common.run_driver([trans_java.request(r["java_export"], "src." + r["pkg"])])[0]
+        run.cov["rule"] = "replay of one family member"
+        run.count({"family": fi}, nontrivial=True)
+        run.log("family member %d %s: text equal %s" % (fi, r["name"], a.get("r") == r.get("real")))
+        if a.get("r") != r.get("real"):
+            st["diffs"].append({"kind": "family-text", "family_index": fi, "name": r["name"]})
+        if "real" in r:
+            f = {"pkg": r["pkg"], "text": r["real"], "stage": "family", "family_index": fi, "name": r["name"]}
+            v, crash, out, _ = compile_batch([f])
+            if v[f["pkg"]]:
+                blk = diag_block(out, f["pkg"])
+                st["rejections"].append({"signature": signature("family", f["text"], v[f["pkg"]], blk), "file": f,
+                                         "messages": v[f["pkg"]], "diagnostic": blk})
+            run.log("javac: %s" % ("rejected " + str(v[f["pkg"]][:2]) if v[f["pkg"]] else "accepted"))
+        verdict(run, st, True)
+        return
     if not src or "seed" not in src or "switches" not in src:
         raise HarnessError("replay file names no program")
     run.build_and_audit()
